@@ -1,11 +1,13 @@
 """
 C16 — `rdsquashfs --describe` output is valid `gensquashfs --pack-file` input rebuilding the tree.
 
-Proof: lean/Sqfs/Props/C16.lean.  `Sqfs.Quote` models describe.c **as it is in /repo** (after 96e45c1) and the
-pack-file parser; printer ∘ parser = identity for all names/targets/locations without NUL/LF.  The property excludes LF
-from entry names only: for a symlink target or an --unpack-root with LF the printer in /repo prints a listing that
-does not rebuild the tree (lean/Sqfs/Witness/C16.lean, keys `LF:*`).  `Sqfs.QuoteLF` models describe.c with
-fixes/C16-describe-newline.patch (refuse, diagnose, exit non-zero); the `describe_newline_*` theorems are about it.
+Proof: lean/Sqfs/Props/C16.lean.  `Sqfs.QuoteLF` models describe.c **as it is in /repo** (quoting of 96e45c1, line-feed
+test of 4b35342), `Sqfs.Quote` the pack-file parser (incl. the keyword table's flags column: `link` = hard link since
+99d70b1) and — for the proofs and to name a regression — the printer without the line-feed test; `Sqfs.QuoteFs` models
+lib/fstree as the parser feeds it (hard-link entries, nesting limit of 9724762).  printer ∘ parser = identity for all
+names/targets/locations without NUL/LF; with LF in a target or --unpack-root the printer refuses (describe_newline_*);
+the listing rebuilds the tree in gensquashfs' memory (rebuild_fstree_partial); describe never prints a `link` line
+(describe_prints_no_link): the names of a hard-link group come back as independent regular files.
 
 Tie (every run, real code from the working tree under ASan+UBSan):
   unit level — harness/h_c16.c (+ h_c16_desc.c): the real split_line / parse_uint / istream_get_line (memory stream
@@ -16,11 +18,11 @@ Tie (every run, real code from the working tree under ASan+UBSan):
     dumped node by node against `Sqfs.QuoteFs.buildFromFile`, and — on the real describe output of generated trees —
     against the specification `normTree` (theorem rebuild_fstree_partial);
   tool level — gensquashfs → image A → rdsquashfs -d [-p R] + rdsquashfs -u / -p R → gensquashfs -F → image B;
-    A and B compared entry by entry through rdsquashfs -s / -c / -l (stat.c, not describe.c).
+    A and B compared entry by entry through rdsquashfs -s / -c / -l (stat.c, not describe.c); trees with hard-link
+    groups (built with the `link` keyword): every name must come back with the same type, mode, owner and contents.
 
-The real printer must equal the model of /repo's printer on every input; on inputs where the patched model differs
-(a LF in a printed string) it may equal the patched model instead.  Where it prints a LF into the listing and the
-round trip fails, that is the open defect (keys `LF:target`, `LF:location`).  Anything else is a fresh violation.
+The real printer must equal the model of /repo's printer on every input.  A string with LF must be refused: a listing
+printed for it is reported under the key `LF:target` / `LF:location` (the defect repaired by 4b35342).
 Every part of the check raises (infrastructure failure) when it evaluated nothing or lost its coverage.
 """
 import itertools, json, os, shutil, subprocess, hashlib
@@ -455,13 +457,13 @@ def report_crash(ctx, lines, crash, what):
                   {"op": lines[k], "stderr": err})
 
 
-def printer_verdict(got, cur, fix, old):
-    """which model the real printer's answer equals: 'cur' (the printer in /repo; also when cur == fix), 'fix' (only
-    the printer with fixes/C16-describe-newline.patch), or None (neither; second component names a regression)"""
+def printer_verdict(got, cur, nolf, old):
+    """'cur' when the real printer's answer equals the model of the printer in /repo, otherwise None (the second
+    component names a regression to an earlier printer)"""
     if got == cur:
         return "cur", ""
-    if got == fix:
-        return "fix", ""
+    if got == nolf:
+        return None, " — it equals the printer without the line-feed test (before 4b35342): a regression of the LF defect"
     return None, (" — it equals the printer of the pinned snapshot (before 96e45c1): a regression of D13" if got == old else "")
 
 
@@ -532,7 +534,7 @@ def run_simple_ops(ctx, pair, stats):
             esc.append(bytes(t))
     esc += [random_string(rng, 60, slash=True) for _ in range(300 if ctx.quick() else 5000)] + lf_strings(rng, 30 if ctx.quick() else 500)
     for s in esc:
-        ops.append(("esc x " + tok(s), ["esc cur " + tok(s), "esc fix " + tok(s)]))
+        ops.append(("esc x " + tok(s), ["esc cur " + tok(s)]))
     # glibc major/minor/makedev
     devs = DEVS + [0xffffffffffffffff, 0xfffff00000000000, 0x00000ffffff00000, 1 << 32, (1 << 44) - 1] \
         + [rng.getrandbits(32) for _ in range(300 if ctx.quick() else 5000)] + [rng.getrandbits(64) for _ in range(100 if ctx.quick() else 2000)]
@@ -578,11 +580,8 @@ def run_simple_ops(ctx, pair, stats):
         if kind in ("dev", "mkdev"):
             st = "ok"
         hist[kind + ":" + st] = hist.get(kind + ":" + st, 0) + 1
-        if kind == "esc" and answers[0] != answers[1]:
-            if a == answers[0]:
-                esc_lf_printed += 1
-            elif a == answers[1]:
-                esc_lf_refused += 1
+        if kind == "esc" and a.startswith("err"):
+            esc_lf_refused += 1
         if a not in answers:
             bad += 1
             if bad <= 5:
@@ -592,7 +591,7 @@ def run_simple_ops(ctx, pair, stats):
     for k in ("split:ok", "split:err", "splitsep:ok", "pos:ok", "possep:ok", "num:ok", "num:err", "esc:ok", "dev:ok", "mkdev:ok", "parse:ok", "parsef:ok"):
         need(hist.get(k, 0) > 0, "no operation of class %s was evaluated" % k)
     stats.update({"corpus_ops": ncorpus, "split_lines": len(lines), "split_exhaustive": nexh, "split_random": nrand, "splitsep_lines": nsep,
-                  "num_strings": len(nums), "esc_strings": len(esc), "esc_with_lf_printed": esc_lf_printed, "esc_with_lf_refused": esc_lf_refused,
+                  "num_strings": len(nums), "esc_strings": len(esc), "esc_with_lf_refused": esc_lf_refused,
                   "dev_values": len(devs), "mkdev_pairs": len(mk), "packfiles": len(files), "long_packfiles_through_file_stream": len(longs),
                   "parser_branch_histogram": dict(sorted(hist.items())), "parser_disagreements": bad})
 
@@ -607,7 +606,7 @@ def check_cases(ctx, pair, cases, stats):
     ops_m = []
     for c in cases:
         a = c.args()
-        ops_m += ["desc cur " + a, "desc fix " + a, "desc old " + a, "expect " + a]
+        ops_m += ["desc cur " + a, "desc nolf " + a, "desc old " + a, "expect " + a]
     model = pair.model(ops_m)
     # second pass: what the real parser (and its model) decode from the real printer's line
     idx = [i for i, l in enumerate(impl) if l.startswith("ok ")]
@@ -627,21 +626,21 @@ def check_cases(ctx, pair, cases, stats):
     tags = {}
     for i, c in enumerate(cases):
         got = impl[i]
-        cur, fix, old, exp = model[4 * i: 4 * i + 4]
-        need("bad-op" not in (got, cur, fix, old, exp), "describe case not understood: %s" % c.args()[:160])
+        cur, nolf, old, exp = model[4 * i: 4 * i + 4]
+        need("bad-op" not in (got, cur, nolf, old, exp), "describe case not understood: %s" % c.args()[:160])
         tags[c.tag] = tags.get(c.tag, 0) + 1
-        rep = dict(c.as_dict(), impl=got, model_cur=cur, model_fix=fix, expect=exp)
-        verdict, regress = printer_verdict(got, cur, fix, old)
+        rep = dict(c.as_dict(), impl=got, model=cur, model_without_lf_test=nolf, expect=exp)
+        verdict, regress = printer_verdict(got, cur, nolf, old)
         if verdict == "cur":
             n_cur += 1
-        elif verdict == "fix":
-            n_fix += 1
+            if cur != nolf:
+                n_fix += 1          # a string with LF, refused
         if not got.startswith("ok "):
             n_err += 1
             if verdict is None:
                 capped(ctx, caps, "corr:desc", "corr:desc:" + vlib.sha(c.args())[:16],
                        "describe_tree refuses a node (or fails differently) where its model does not%s: %s" % (regress, json.dumps(rep)[:900]),
-                       dict(rep, correspondence="harness/h_c16_desc.c vs Sqfs.Quote.describeNode / Sqfs.QuoteLF.describeNode"), False)
+                       dict(rep, correspondence="harness/h_c16_desc.c vs Sqfs.QuoteLF.describeNode"), False)
             continue
         a, b = dec[i]
         rep.update(impl_decoded=a, model_decoded=b)
@@ -661,7 +660,7 @@ def check_cases(ctx, pair, cases, stats):
         # the specification, evaluated on the implementation's behaviour: printer ∘ parser must yield the node
         if a != exp:
             n_fail += 1
-            cause = lf_cause(c.root, c.kind, c.comps, c.target) if verdict == "cur" and cur != fix else None
+            cause = lf_cause(c.root, c.kind, c.comps, c.target) if got == nolf and cur != nolf else None
             key = "LF:" + cause if cause else "rt:" + vlib.sha(c.args())[:16]
             what = ("describe line for %s is not decoded back to the node by the pack-file parser (%s%s): line=%r decoded=%s expected=%s"
                     % (c.as_dict(), "a line feed in the " + cause + " is printed into the listing" if cause else "unexpected", regress,
@@ -672,7 +671,7 @@ def check_cases(ctx, pair, cases, stats):
             # round trip holds but the printer is no longer the one the theorems are about
             capped(ctx, caps, "corr:desc", "corr:desc:" + vlib.sha(c.args())[:16],
                    "describe_tree output differs from the model of the printer although it decodes to the node%s: %s" % (regress, json.dumps(rep)[:900]),
-                   dict(rep, correspondence="harness/h_c16_desc.c vs Sqfs.Quote.describeNode"), False)
+                   dict(rep, correspondence="harness/h_c16_desc.c vs Sqfs.QuoteLF.describeNode"), False)
         if lf_cause(c.root, c.kind, c.comps, c.target):
             n_lf_scope += 1
         if len(samples) < 6 and (i % 997 == 3):
@@ -681,7 +680,7 @@ def check_cases(ctx, pair, cases, stats):
     for t in ("name", "target", "root", "num", "dev", "rootdir", "long", "lf-target", "lf-root", "lf-name", "dots"):
         need(tags.get(t, 0) > 0, "no describe case of class %s" % t)
     stats.update({"desc_cases": len(cases), "desc_case_classes": dict(sorted(tags.items())), "printer_eq_repo_model": n_cur,
-                  "printer_eq_patched_model_only": n_fix, "desc_refused": n_err, "roundtrips_checked": n_rt,
+                  "refused_for_a_line_feed": n_fix, "desc_refused": n_err, "roundtrips_checked": n_rt,
                   "lines_with_lf_in_target_or_root_printed": n_lf_scope, "out_of_scope_names_tied_only": n_lfname, "roundtrip_failures": n_fail,
                   "roundtrip_failure_keys": dict(sorted(known.items())), "distinct_lines": len(nontrivial), "desc_samples": samples})
     return nontrivial
@@ -693,7 +692,7 @@ def check_trees(ctx, pair, trees, stats, roots, min_rt):
     for i, t in enumerate(trees):
         r = roots[i % len(roots)]
         ops_i.append(tree_line("x", r, t))
-        ops_m += [tree_line("cur", r, t), tree_line("fix", r, t), tree_line("old", r, t), tree_line("etree", r, t).replace("dtree etree ", "etree ", 1)]
+        ops_m += [tree_line("cur", r, t), tree_line("nolf", r, t), tree_line("old", r, t), tree_line("etree", r, t).replace("dtree etree ", "etree ", 1)]
         for comps, nd in tree_nodes(t):
             ops_m.append("expect " + Case(r, nd[1], nd[2], nd[3], nd[4], nd[5], nd[6], comps, "tree").args())
         meta.append(r)
@@ -716,13 +715,13 @@ def check_trees(ctx, pair, trees, stats, roots, min_rt):
     for i, t in enumerate(trees):
         r = meta[i]
         nn = len(t)
-        cur, fix, old, etree = model[pos: pos + 4]
+        cur, nolf, old, etree = model[pos: pos + 4]
         exps = model[pos + 4: pos + 4 + nn]
         pos += 4 + nn
         got = impl[i]
-        need("bad-op" not in (got, cur, fix, old, etree) and "bad-op" not in exps, "tree not understood: %s" % ops_i[i][:160])
-        rep = {"tree": ops_i[i], "impl": got, "model_cur": cur, "model_fix": fix}
-        verdict, regress = printer_verdict(got, cur, fix, old)
+        need("bad-op" not in (got, cur, nolf, old, etree) and "bad-op" not in exps, "tree not understood: %s" % ops_i[i][:160])
+        rep = {"tree": ops_i[i], "impl": got, "model": cur, "model_without_lf_test": nolf}
+        verdict, regress = printer_verdict(got, cur, nolf, old)
         if verdict is None:
             capped(ctx, caps, "corr:dtree", "corr:dtree:" + vlib.sha(ops_i[i])[:16], "describe_tree on a tree differs from its model%s: %s" % (regress, json.dumps(rep)[:900]),
                    rep, False)
@@ -746,7 +745,7 @@ def check_trees(ctx, pair, trees, stats, roots, min_rt):
         if a != want:
             fails += 1
             cause = None
-            if verdict == "cur" and cur != fix:
+            if got == nolf and cur != nolf:
                 for comps, nd in tree_nodes(t):
                     cause = lf_cause(r, nd[1], comps, nd[6])
                     if cause:
@@ -801,13 +800,21 @@ def gen_fs_packfiles(ctx):
             parts = [kw, q(path) if rng.random() < 0.7 or any(c in path for c in b' "\\') else path,
                      b"0%o" % rng.choice(PERMS), b"%d" % rng.choice(IDS), b"%d" % rng.choice(IDS)]
             if kw == b"slink" or kw == b"link":
-                parts.append(rng.choice([b"t", b"\"a b\"", b"/x"]))
+                parts.append(rng.choice([b"t", b"\"a b\"", b"/x", b"../x", b"a/../b", b"//a//b/", b"."]))
             elif kw == b"nod":
                 parts += [rng.choice([b"c", b"b"]), b"%d" % rng.choice([0, 5, 4095, 4096, 4294967295]), b"%d" % rng.choice([0, 1, 255, 1048575, 4294967295])]
             elif kw == b"file" and rng.random() < 0.5:
                 parts.append(rng.choice([b"loc", b"\"in put\""]))
             lines.append(b" ".join(parts))
         out.append(b"\n".join(lines) + b"\n")
+    # the nesting limit of mknode (SQFS_MAX_DIR_NESTING = 4096): directories at depth 4096 / 4097, defined and implicit,
+    # other types below the deepest directory
+    deep = lambda n: b"/".join([b"a"] * n)
+    out.append(b"dir /" + deep(4096) + b" 0755 0 0\nfile /" + deep(4096) + b"/f 0644 0 0\nlink /" + deep(4096) + b"/l 0 0 0 /x\n")
+    out.append(b"dir /" + deep(4097) + b" 0755 0 0\n")
+    out.append(b"file /" + deep(4097) + b"/f 0644 0 0\n")
+    out.append(b"dir /" + deep(4095) + b" 0755 0 0\ndir /" + deep(4096) + b" 0700 1 1\ndir /" + deep(4096) + b"/b 0755 0 0\n")
+    out.append(b"pipe /" + deep(4097) + b" 0644 0 0\nsock /" + deep(4098) + b" 0644 0 0\n")
     return out
 
 
@@ -850,7 +857,7 @@ def check_fs(ctx, pair, stats):
             if bad <= 5:
                 ctx.violation("corr:fs:" + vlib.sha(o)[:16], "lib/fstree and its model disagree on `%s`: impl=%s model=%s" % (o[:200], a[:400], b[:400]),
                               {"op": o, "impl": a, "model": b, "correspondence": "harness/h_c16_fs.c vs Sqfs.QuoteFs.buildFromFile"}, found_input=False)
-    for k in ("ok", "fs:exist", "fs:notdir", "fs:range"):
+    for k in ("ok", "fs:exist", "fs:notdir", "fs:range", "fs:inval", "fs:nametoolong"):
         need(hist.get(k, 0) > 0, "no pack file ended in status %s on the real fstree" % k)
     # real describe output of generated trees → real fstree, against the model and against the specification
     trees = gen_trees(ctx, 80 if ctx.quick() else 3000, maxnodes=30)
@@ -928,8 +935,84 @@ def stat_of(ctx, rd, img, path):
     return tuple(sorted(keep.items()))
 
 
-def tool_roundtrip(ctx, tools, tree, root, files, wd, idx):
-    """returns (status, detail, describe_output_bytes); status ∈ ok | fail | infra"""
+def nest(tree):
+    """pre-order node list → nested [node, [children…]]"""
+    root = [tree[0], []]
+    stack = [root]
+    for nd in tree[1:]:
+        d = nd[0]
+        stack = stack[:d]
+        n = [nd, []]
+        stack[-1][1].append(n)
+        stack.append(n)
+    return root
+
+
+def unnest(n, depth=0):
+    """nested → pre-order list with the children of every directory in the order of the image (sorted by name)"""
+    nd = n[0]
+    out = [(depth,) + tuple(nd[1:])]
+    for c in sorted(n[1], key=lambda c: c[0][7]):
+        out += unnest(c, depth + 1)
+    return out
+
+
+def add_links(ctx, tree, files):
+    """add names that are hard links to regular files of the tree (also to other links: chains), in the same or another
+    directory, sorting before and after their target.  Returns the tree as `rdsquashfs` will see it (every link is one
+    more regular file with the attributes of the file it leads to) and {path of the link: path of its target}."""
+    rng = ctx.rng
+    root = nest(tree)
+    dirs, fpaths = [], {}
+
+    def walk(n, comps):
+        if n[0][1] == "dir":
+            dirs.append((n, comps))
+            for c in n[1]:
+                walk(c, comps + [c[0][7]])
+        elif n[0][1] == "file":
+            fpaths[tuple(comps)] = n[0]
+    walk(root, [])
+    links = {}
+    if not fpaths:
+        return tree, links
+    for _ in range(rng.randint(1, 4)):
+        target = rng.choice(sorted(fpaths))
+        final = fpaths[target]
+        dn, dcomps = rng.choice(dirs)
+        used = {c[0][7] for c in dn[1]}
+        for cand in (rng.choice([b"!", b"~", b"", b"l k "]) + rng.choice([target[-1], b"hl", b"h\"l"]))[:200], b"hl%d" % len(links):
+            if valid_name(cand) and cand not in used:
+                break
+        else:
+            continue
+        node = (len(dcomps) + 1, "file", final[2], final[3], final[4], 0, b"", cand)
+        dn[1].append([node, []])
+        path = tuple(dcomps + [cand])
+        links[path] = target
+        fpaths[path] = final
+        files[b"/".join(path)] = files[b"/".join(target)]
+    return unnest(root), links
+
+
+def inode_of(ctx, rd, img, path):
+    """(inode number, hard link count or None) as `rdsquashfs -s` prints them"""
+    r = vlib.sh([str(rd), "-s", path, str(img)], env=ctx.san_env(), timeout=600, text=False)
+    need(r.returncode == 0, "rdsquashfs -s %r failed: %r" % (path, r.stderr[-200:]))
+    ino = nl = None
+    for l in r.stdout.split(b"\n"):
+        if l.startswith(b"Inode number: "):
+            ino = int(l[14:])
+        if l.startswith(b"Hard link count: "):
+            nl = int(l[17:])
+    need(ino is not None, "rdsquashfs -s prints no inode number: %r" % r.stdout[:200])
+    return ino, nl
+
+
+def tool_roundtrip(ctx, tools, tree, root, files, wd, idx, links=None):
+    """returns (status, detail, describe_output_bytes, hard-link statistics); status ∈ ok | fail | infra"""
+    links = links or {}
+    hl = {"links": len(links), "same_inode_in_original": 0, "same_inode_in_rebuilt": 0}
     gen, rd = tools
     env = ctx.san_env()
     d = wd / ("t%d" % idx)
@@ -941,7 +1024,10 @@ def tool_roundtrip(ctx, tools, tree, root, files, wd, idx):
         _, kind, perm, uid, gid, devno, target, _ = nd
         path = b"/" + b"/".join(comps)
         base = b" ".join([q(path), b"0%o" % perm, b"%d" % uid, b"%d" % gid])
-        if kind == "dir":
+        if tuple(comps) in links:
+            tgt = b"/".join(links[tuple(comps)])
+            lines.append(b"link " + b" ".join([q(path), b"0%o" % (idx % 8), b"%d" % (idx % 3), b"0"]) + b" " + q((b"/" if idx % 2 else b"") + tgt))
+        elif kind == "dir":
             lines.append(b"dir " + base)
         elif kind == "file":
             fn = "f%d" % len(lines)
@@ -965,11 +1051,17 @@ def tool_roundtrip(ctx, tools, tree, root, files, wd, idx):
     if r.returncode != 0:
         # the generated pack file is valid by construction (quoting written independently of the model): the pipeline
         # of the property cannot even start
-        return "fail", "gensquashfs refused the generated (valid) pack file (%d): %r" % (r.returncode, r.stderr[-300:]), b""
+        return "fail", "gensquashfs refused the generated (valid) pack file (%d): %r" % (r.returncode, r.stderr[-300:]), b"", hl
+    for lp, tp in links.items():
+        # premise of these cases: the `link` keyword made the two names one inode of the original image
+        il, it = inode_of(ctx, rd, A, b"/" + b"/".join(lp)), inode_of(ctx, rd, A, b"/" + b"/".join(tp))
+        if il[0] != it[0] or (il[1] or 1) < 2:
+            return "fail", "the `link` line for %r did not make a hard link to %r in the original image: inode/nlink %r vs %r" % (lp, tp, il, it), b"", hl
+        hl["same_inode_in_original"] += 1
     dargs = [str(rd), "-d"] + (["-p", os.fsdecode(root)] if root is not None else []) + [str(A)]
     r = vlib.sh(dargs, env=env, timeout=900, text=False, cwd=str(d))
     if r.returncode != 0:
-        return "fail", "rdsquashfs -d failed (%d): %r" % (r.returncode, r.stderr[-300:]), r.stdout
+        return "fail", "rdsquashfs -d failed (%d): %r" % (r.returncode, r.stderr[-300:]), r.stdout, hl
     listing = r.stdout
     (d / "list.txt").write_bytes(listing)
     uroot = os.fsdecode(root) if root is not None else "unpacked"
@@ -977,29 +1069,33 @@ def tool_roundtrip(ctx, tools, tree, root, files, wd, idx):
         (d / "a").mkdir(exist_ok=True)
     r = vlib.sh([str(rd), "-q", "-D", "-S", "-F"] + (["-L"] if no_slink else []) + ["-u", "/", "-p", uroot, str(A)], env=env, timeout=900, text=False, cwd=str(d))
     if r.returncode != 0:
-        return "fail", "rdsquashfs -u / -p %r failed (%d): %r" % (uroot, r.returncode, r.stderr[-300:]), listing
+        return "fail", "rdsquashfs -u / -p %r failed (%d): %r" % (uroot, r.returncode, r.stderr[-300:]), listing, hl
     gargs = [str(gen), "-q", "-F", "list.txt"] + ([] if root is not None else ["-D", uroot]) + [str(B)]
     r = vlib.sh(gargs, env=env, timeout=900, text=False, cwd=str(d))
     if r.returncode != 0:
-        return "fail", "gensquashfs -F <describe output> failed (%d): %r" % (r.returncode, r.stderr[-300:]), listing
+        return "fail", "gensquashfs -F <describe output> failed (%d): %r" % (r.returncode, r.stderr[-300:]), listing, hl
     # compare A and B entry by entry
     for comps, nd in nodes:
         path = b"/" + b"/".join(comps)
         sa, sb = stat_of(ctx, rd, A, path), stat_of(ctx, rd, B, path)
         if sa != sb or (sa and sa[0] == "ERR"):
-            return "fail", "entry %r differs: original %r rebuilt %r" % (path, sa, sb), listing
+            return "fail", "entry %r differs: original %r rebuilt %r" % (path, sa, sb), listing, hl
         if nd[1] == "file":
             ca = vlib.sh([str(rd), "-c", path, str(A)], env=env, timeout=600, text=False)
             cb = vlib.sh([str(rd), "-c", path, str(B)], env=env, timeout=600, text=False)
             if ca.returncode != 0 or cb.returncode != 0 or ca.stdout != cb.stdout or ca.stdout != files[b"/".join(comps)]:
-                return "fail", "contents of %r differ" % path, listing
+                return "fail", "contents of %r differ" % path, listing, hl
         if nd[1] == "dir":
             la = vlib.sh([str(rd), "-l", path, str(A)], env=env, timeout=600, text=False)
             lb = vlib.sh([str(rd), "-l", path, str(B)], env=env, timeout=600, text=False)
             if la.returncode != 0 or lb.returncode != 0 or la.stdout != lb.stdout:
-                return "fail", "directory %r lists differently: original %r rebuilt %r" % (path, la.stdout[-300:], lb.stdout[-300:]), listing
+                return "fail", "directory %r lists differently: original %r rebuilt %r" % (path, la.stdout[-300:], lb.stdout[-300:]), listing, hl
+    for lp, tp in links.items():
+        # recorded, not required: describe has no `link` lines, the names come back as independent files
+        if inode_of(ctx, rd, B, b"/" + b"/".join(lp))[0] == inode_of(ctx, rd, B, b"/" + b"/".join(tp))[0]:
+            hl["same_inode_in_rebuilt"] += 1
     shutil.rmtree(str(d), ignore_errors=True)
-    return "ok", "", listing
+    return "ok", "", listing, hl
 
 
 LF_TOOL_CASES = [("target", b"a\nb", None), ("target", b"a\n#b", None), ("target", b"a b\nc", None), ("location", b"t", b"u\np"),
@@ -1120,38 +1216,48 @@ def check_tools(ctx, pair, stats):
         for comps, nd in tree_nodes(t):
             if nd[1] == "file":
                 files[b"/".join(comps)] = bytes(ctx.rng.randint(0, 255) for _ in range(ctx.rng.choice([0, 1, 17, 300, 5000])))
+        links = {}
+        if i >= nwit + 2 and i % 2 == 0:
+            # every second generated tree also holds hard-link groups (`link` keyword): rdsquashfs sees one more file per name
+            t, links = add_links(ctx, t, files)
         if root == b"ABS":
             root = os.fsencode(str(wd / ("abs%d" % i) / "un pack"))
-        prepared.append((t, root, files, i))
+        prepared.append((t, root, files, i, links))
     from concurrent.futures import ThreadPoolExecutor
     with ThreadPoolExecutor(max_workers=5) as ex:
         def one(a):
             try:
-                return tool_roundtrip(ctx, (gen, rd), a[0], a[1], a[2], wd, a[3])
+                return tool_roundtrip(ctx, (gen, rd), a[0], a[1], a[2], wd, a[3], a[4])
             except subprocess.TimeoutExpired as e:
                 # a loaded machine is not a property violation; the number of such runs is bounded below
-                return "timeout", "timeout (machine load): %s" % str(e)[:120], b""
+                return "timeout", "timeout (machine load): %s" % str(e)[:120], b"", {}
         results = list(ex.map(one, prepared))
         lfres = list(ex.map(lambda a: tool_lf_case(ctx, (gen, rd), wd, a[0], a[1]), enumerate(LF_TOOL_CASES)))
     res = {"ok": 0, "fail": 0, "timeout": 0}
     ops_m, runs = [], []
-    for (t, root, files, i), (st, detail, listing) in szip(prepared, results):
+    hlstat = {"trees_with_links": 0, "links": 0, "same_inode_in_original": 0, "same_inode_in_rebuilt": 0}
+    for (t, root, files, i, links), (st, detail, listing, hl) in szip(prepared, results):
         res[st] += 1
-        runs.append((t, root, st, detail, listing))
-        ops_m += [tree_line("cur", root, t), tree_line("fix", root, t), tree_line("old", root, t)]
+        runs.append((t, root, st, detail, listing, links))
+        if st == "ok" and hl.get("links"):
+            hlstat["trees_with_links"] += 1
+            for k in ("links", "same_inode_in_original", "same_inode_in_rebuilt"):
+                hlstat[k] += hl[k]
+        ops_m += [tree_line("cur", root, t), tree_line("nolf", root, t), tree_line("old", root, t)]
     model = pair.model(ops_m)
     caps = {}
     n_bytes = 0
-    for i, (t, root, st, detail, listing) in enumerate(runs):
-        cur, fix, old = model[3 * i: 3 * i + 3]
+    for i, (t, root, st, detail, listing, links) in enumerate(runs):
+        cur, nolf, old = model[3 * i: 3 * i + 3]
         got = "ok " + tok(listing)
         rep = {"tree": tree_line("x", root, t), "root": None if root is None else tok(root), "status": st, "detail": detail,
-               "listing": tok(listing)[:20000]}
+               "listing": tok(listing)[:20000],
+               "links": {"/".join(tok(x) for x in k): "/".join(tok(x) for x in v) for k, v in links.items()}}
         if st == "timeout":
             continue
         if st == "ok":
             n_bytes += 1
-            verdict, regress = printer_verdict(got, cur, fix, old)
+            verdict, regress = printer_verdict(got, cur, nolf, old)
             if verdict is None:
                 capped(ctx, caps, "corr:tool", "corr:tool:" + vlib.sha(rep["tree"])[:16],
                        "`rdsquashfs -d` output differs from the printer's model on a generated image%s: got %r" % (regress, listing[:300]),
@@ -1169,7 +1275,8 @@ def check_tools(ctx, pair, stats):
     done = res["ok"] + res["fail"]
     need(res["timeout"] <= 2 and done >= len(jobs) - 2, "tool-level round trips lost: %s of %d (timeouts %d)" % (res, len(jobs), res["timeout"]))
     need(res["ok"] + res["fail"] > 0 and (res["fail"] > 0 or res["ok"] >= len(jobs) - 2), "too few completed tool-level round trips: %s" % res)
-    stats.update({"tool_trees": len(jobs), "tool_witness_trees": nwit, "tool_results": res, "tool_listings_compared_with_model": n_bytes,
+    need(res["fail"] > 0 or hlstat["links"] >= 5, "only %d hard links went through the tool-level round trip" % hlstat["links"])
+    stats.update({"tool_hard_links": hlstat, "tool_trees": len(jobs), "tool_witness_trees": nwit, "tool_results": res, "tool_listings_compared_with_model": n_bytes,
                   "tool_lf_cases": lfstat, "tool_unpack_roots": sorted({repr(r[1]) for r in prepared})[:40],
                   "tool_timeouts": [r[3][:160] for r in runs if r[2] == "timeout"][:5]})
     pair.evals += len(jobs) + len(LF_TOOL_CASES)
@@ -1242,14 +1349,15 @@ def run(ctx):
         "(handle_line and callbacks up to the arguments of fstree_add_generic; glob lines excluded), bin/rdsquashfs/src/describe.c (what it prints "
         "before a failure is not modelled, only the class of the failure), lib/common/src/dir_tree.c:sqfs_tree_node_get_path; glibc "
         "major/minor/makedev, printf %o/%u, isspace/isdigit in the C locale",
-        "lib/fstree/src/fstree.c is modelled (Sqfs.QuoteFs) as fstree_from_file.c drives it: ent->flags = 0 (no hard links), names as canonicalize_name "
-        "leaves them; inode numbers, xattr indices and fstree_post_process are not modelled",
+        "lib/fstree/src/fstree.c is modelled (Sqfs.QuoteFs) as fstree_from_file.c drives it: names as canonicalize_name leaves them, hard-link entries "
+        "(`link`) as unresolved leaves; inode numbers, xattr indices and fstree_post_process (hard-link resolution: C07) are not modelled",
         "what happens after the in-memory tree (tree → image) and before describe_tree (image → tree), `rdsquashfs -u` and the contents of files are "
         "not modelled (C01/C06); here they are exercised at tool level only",
     ], assumptions=["entry names contain no LF (the property's quantifier) and no NUL/'/' (cannot occur in an image)",
-                    "the theorems about the printer in /repo also assume no LF in symlink targets and --unpack-root; where that fails the "
-                    "check reports the open defect LF:target / LF:location (fixes/C16-describe-newline.patch); the describe_newline_* theorems "
-                    "about the patched printer assume nothing about LF"])
+                    "the round-trip theorems also assume no LF in symlink targets and --unpack-root; with one, the printer refuses "
+                    "(describe_newline_sound/_refusal assume nothing about LF) and the check requires the refusal",
+                    "rebuild_fstree_partial: sibling names pairwise different, fewer than 2^32 - 3 entries per directory, directories nested at "
+                    "most SQFS_MAX_DIR_NESTING deep (the readers hand out nothing else)"])
 
 
 def replay(ctx, path):
@@ -1277,10 +1385,10 @@ def replay(ctx, path):
     if "comps" in rp:
         c = Case.from_dict(rp)
         impl, crash = pair.impl(["desc x " + c.args()])
-        model = pair.model(["desc cur " + c.args(), "desc fix " + c.args(), "desc old " + c.args(), "expect " + c.args()])
+        model = pair.model(["desc cur " + c.args(), "desc nolf " + c.args(), "desc old " + c.args(), "expect " + c.args()])
         print("node   :", c.as_dict())
         print("impl   :", impl, "crash:", crash)
-        print("model  : repo=%s patched=%s" % (model[0], model[1]))
+        print("model  : repo=%s without-lf-test=%s" % (model[0], model[1]))
         print("expect :", model[3])
         verdict = printer_verdict(impl[0], model[0], model[1], model[2])[0] if impl else None
         print("printer matches model:", verdict)
@@ -1311,7 +1419,10 @@ def replay(ctx, path):
         gen, rd = ctx.build_tool("gensquashfs"), ctx.build_tool("rdsquashfs")
         files = {b"/".join(c): b"replay" for c, nd in tree_nodes(tree) if nd[1] == "file"}
         wd = ctx.scratch / "tool"; wd.mkdir(exist_ok=True)
-        st, detail, listing = tool_roundtrip(ctx, (gen, rd), tree, root, files, wd, 0)
+        links = {tuple(untok(x) for x in k.split("/")): tuple(untok(x) for x in v.split("/")) for k, v in rp.get("links", {}).items()}
+        for lp, tp in links.items():
+            files[b"/".join(lp)] = files[b"/".join(tp)] = b"replay"
+        st, detail, listing, _ = tool_roundtrip(ctx, (gen, rd), tree, root, files, wd, 0, links)
         print("status:", st, detail)
         print("listing:\n" + listing[:4000].decode("latin-1"))
         return 1 if st == "fail" else 0
